@@ -35,6 +35,10 @@ SECOND_ENTRY = {"Snake": "r3c3t4000", "Knapsack": "n10s", "Connector": "g6a3t2un
                 "LevelBasedForaging": "g5a1f1v5l2nVNp0t7"}
 
 
+# tiny instances on which episodes keep ending by *completion* (a won game), not only by invalid moves / time limits
+WIN_ENTRY = {"Snake": ["r2c2t4000"]}
+
+
 class Rig:
     """Compiled pieces for one (env entry, flag)."""
 
@@ -245,7 +249,7 @@ def work_items(tier, flt):
     names = QUICK_ENVS if tier == "quick" else envs.ENV_NAMES
     items = []
     for env in envs.select_envs(names, flt):
-        es = [SHORT_ENTRY[env]]
+        es = [SHORT_ENTRY[env]] + WIN_ENTRY.get(env, [])
         if tier == "thorough" and env in SECOND_ENTRY:
             es.append(SECOND_ENTRY[env])
         if flt and flt.get("entry"):
